@@ -402,7 +402,7 @@ func (cl *Cluster) RestartNode(i int) (*Node, error) {
 		return old, nil
 	}
 	old.lives++
-	n, err := cl.buildNode(old.ID, old.Name, NodeOpts{Auth: &MountAuth{prefix: fmt.Sprintf("%sr%d", old.Name, old.lives)}})
+	n, err := cl.buildNode(old.ID, old.Name, NodeOpts{Auth: &MountAuth{prefix: fmt.Sprintf("%sr%d%s", old.Name, old.lives, cl.idSuffix)}})
 	if err != nil {
 		return nil, err
 	}
@@ -457,7 +457,7 @@ func (cl *Cluster) buildNode(id uint64, name string, o NodeOpts) (*Node, error) 
 	n.Members = wasp.NewNodeMemberManager(id, n.Log, n.State)
 	n.Auth = o.Auth
 	if n.Auth == nil {
-		n.Auth = &MountAuth{prefix: n.Name}
+		n.Auth = &MountAuth{prefix: n.Name + cl.idSuffix}
 	}
 	n.ctx, n.cancel = context.WithCancel(nopCtx())
 	w := wasp.NewWriter(id, n.State.Subscriptions(), n.Local, n.Acks)
